@@ -549,6 +549,7 @@ func cmdCheck(args []string) {
 	}
 	fmt.Printf("%s %s: %d functions, %d obligations (%d sub-goals), %d discharged, %d violations, %.1fs\n", id, *tier, len(funcReports), totalObl, totalSub, totalDis, violations, time.Since(t0).Seconds())
 	if violations > 0 {
+		os.RemoveAll(work) // deferred calls do not run on os.Exit
 		os.Exit(1)
 	}
 }
